@@ -1,31 +1,39 @@
 reg("C15", "SPDE operators, projections and solvers are mutually consistent",
-    parts=[dict(harness="c15_spde", cases=dict(quick=640, thorough=4000), timeout_case=90)],
-    rule="case = one (mesh, model) pair drawn from the case PRNG: mesh kind in {MeshETurbo from nx/dx/x0/angles (optionally "
-         "polarized), MeshETurbo from a DbGrid with a selection (masked meshes), MeshETurbo::createFromCova (rotated like the "
-         "model, extension cells), MeshEStandard::createFromExternal on a jittered simplicial lattice under a random affine "
-         "map with relabelled vertices and randomly oriented elements, MeshEStandard copy of a turbo mesh} x ndim in {1,2,3} "
-         "(3..700 vertices quick, ..2500 thorough); model = MATERN (nu with nu+d/2 integer or not -> degree of the precision "
-         "polynomial 1..5) or MARKOV with positive user coefficients (1-D/2-D), sill 0.01..100, range from 0.2 cell to 1.5 "
-         "domain, anisotropy ratio up to 25 with rotation, optional nugget. On each pair: 6 vectors (normal, unit, constant, "
-         "wide dynamic range, affine, end unit) through every PrecisionOp/PrecisionOpCs entry point vs own product with the "
-         "entries of getQ(); symmetry / own dense Cholesky / x'Qx / CholeskySparse; ~40 projected points (strictly inside, on "
-         "interior facets, on vertices, on the hull, outside near and far; optional selection and undefined Z) ; 1..30 data "
-         "in three magnitude classes -> PrecisionOpMultiConditional(Cs) solves, krigingSPDE, krigingSPDENew, "
-         "logLikelihoodSPDE in both modes vs an own dense long-double solution when n <= 130 (quick). distinct = distinct "
-         "(mesh kind, ndim, covariance type, polynomial degree, integer-alpha flag, range class, polarization) signatures "
-         "with at least one non-skipped oracle evaluation",
+    parts=[dict(harness="c15_spde", cases=dict(quick=640, thorough=4000), timeout_case=120)],
+    rule="96 % of the cases = one (mesh, model) pair drawn from the case PRNG: mesh kind in {MeshETurbo from nx/dx/x0/angles (optionally "
+         "polarized), MeshETurbo from a DbGrid with a selection (masked meshes), MeshETurbo::createFromCova (grid rotated like the "
+         "model, extension cells), MeshEStandard::createFromExternal on a jittered simplicial lattice (every element keeps |det| >= 0.1 "
+         "lattice units) under a random affine map with relabelled vertices and randomly oriented elements, MeshEStandard copy of a "
+         "turbo mesh} x ndim in {1,2,3} (3..700 vertices quick, ..2500 thorough; coordinate offsets up to 1000 cells); model = MATERN "
+         "(nu with nu+d/2 integer or not -> degree 1..5 of the precision polynomial, recorded as the path taken) or MARKOV with positive "
+         "user coefficients (1-D/2-D only), sill 0.01..100, range from 0.2 cell to 1.5 domain, anisotropy ratio up to 25 with rotation. "
+         "On each pair: 6 vectors (normal, unit, constant, wide dynamic range, affine, end unit) through every PrecisionOp/PrecisionOpCs "
+         "entry point vs the harness's own product with the entries of getQ() and vs Lambda P(S) Lambda x evaluated by the harness; S "
+         "invariants; symmetry / own dense Cholesky (n <= 200) / x'Qx / CholeskySparse solve + log det; ~40 projected points (strictly "
+         "inside, on interior facets, on vertices, on the hull, outside near and far; optional selection and undefined Z; brute-force "
+         "point location by the harness); 1..30 data in three magnitude classes, optional masked / undefined samples, optional nugget, "
+         "1 or 2 structures -> PrecisionOpMultiConditional(Cs) rhs / product / solves / quadratic form / log det, SPDEOp(Matrix) "
+         "product, krigingSPDE, krigingSPDENew, logLikelihoodSPDE with useCholesky = 1 and 0 vs an own dense long-double solution of "
+         "(Q + A'A/s2) x = A'z/s2 when the system has <= 130 unknowns (quick). 4 % of the cases = krigingSPDENew on a target Db "
+         "without Z variable. distinct = distinct (mesh kind, ndim, covariance type, polynomial degree, integer-alpha flag, range "
+         "class, polarization) signatures with at least one non-skipped oracle evaluation",
     level="exploration",
     require=dict(distinct=60,
                  oracles=dict(quick={"matfree-evalDirect": 3000, "Q-vs-formula": 1500, "Q-symmetric": 250, "Q-posdef-chol": 150,
-                                     "cholsparse-succeeds": 250, "solve-residual-chol": 700, "proj-affine": 6000, "proj-outside-empty": 600,
+                                     "cholsparse-succeeds": 250, "solve-residual-chol": 700, "proj-affine": 6000, "proj-outside-empty": 800,
                                      "solve-residual-cg": 200, "krig-cg-vs-ref": 100, "krig-chol-vs-ref": 100, "loglik-chol-vs-ref": 100},
-                              thorough={"matfree-evalDirect": 40000, "Q-vs-formula": 20000, "Q-symmetric": 3000, "Q-posdef-chol": 1500,
-                                        "cholsparse-succeeds": 3000, "solve-residual-chol": 9000, "proj-affine": 80000, "proj-outside-empty": 8000,
-                                        "solve-residual-cg": 2500, "krig-cg-vs-ref": 1000, "krig-chol-vs-ref": 1000, "loglik-chol-vs-ref": 1000})),
-    assumptions=["the entries of Q, S, the projection matrices and Lambda are read through MatrixSparse::getMatrixToTriplet / getLambdas and "
-                 "trusted as the library's statement of those objects; products, Cholesky factors, solves and eigenvalues used as "
-                 "references are computed by the harness in long double",
+                              thorough={"matfree-evalDirect": 9000, "Q-vs-formula": 4500, "Q-symmetric": 750, "Q-posdef-chol": 400,
+                                        "cholsparse-succeeds": 750, "solve-residual-chol": 2100, "proj-affine": 18000, "proj-outside-empty": 1800,
+                                        "solve-residual-cg": 600, "krig-cg-vs-ref": 250, "krig-chol-vs-ref": 250, "loglik-chol-vs-ref": 250})),
+    assumptions=["the entries of Q, S, the projection matrices and Lambda / TildeC are read through MatrixSparse::getMatrixToTriplet, "
+                 "getLambdas, getTildeC and trusted as the library's statement of those objects; products, Cholesky factors, solves and "
+                 "eigenvalues used as references are computed by the harness in long double",
                  "mesh geometry is read through AMesh::getApexCoor / getApex and trusted",
-                 "the data-noise variance used by krigingSPDE is max(nugget, 0.01 * total sill) as coded in SPDE::_init",
+                 "the data-noise variance used by krigingSPDE is max(nugget, 0.01 * total sill) as coded in SPDE::_init; buildInvNugget is "
+                 "checked to return diag(1/s2) before krigingSPDENew is compared",
                  "iterative solves are judged only when the cheap upper bound of cond(Q + A'A/s2) is <= 1e9; a solve passes if the true "
-                 "residual meets the coded rule <r,r>/||b|| <= 4e-8 or the relative form ||r|| <= 4e-4 ||b||"])
+                 "residual meets the coded rule <r,r>/sum||b_k|| <= 4e-8 or the relative form ||r|| <= 4e-4 ||b|| (the tolerance the "
+                 "solver promises is not documented)",
+                 "the matrix-free log-likelihood is a Monte-Carlo trace estimate: agreement is required within 6 standard deviations of "
+                 "that estimator (computed from the eigenvalues) only",
+                 "that Q is the Matern precision (constants of the mass lumping, Lambda normalisation) is NOT decided here (C14)"])
